@@ -209,6 +209,29 @@ func buildPools(r rng, n int) *apiPools {
 	}
 	doc := p.jsonDocs[0]
 	x := p.x9E[0]
+	// a valid document in which one array of record pointers holds null (in place of its elements / after them):
+	// every such document must be refused with a 400, whichever array it is
+	var nullDocs []namedBytes
+	for _, arr := range []string{"bundles", "checks", "returns", "creditItems", "credit", "routingNumberSummary"} {
+		for _, d := range p.jsonDocs {
+			done := false
+			nb := editJSON(d, func(path string, m map[string]any) {
+				if a, ok := m[arr].([]any); ok && len(a) > 0 && !done {
+					done = true
+					if len(nullDocs)%2 == 0 {
+						m[arr] = []any{nil}
+					} else {
+						m[arr] = append(append([]any{}, a...), nil)
+					}
+				}
+			})
+			if done {
+				nullDocs = append(nullDocs, namedBytes{"json-null-in-" + arr, nb, true})
+				break
+			}
+		}
+	}
+	defer func() { p.badBodies = append(p.badBodies, nullDocs...) }()
 	p.badBodies = []namedBytes{
 		{"empty", nil, true},
 		{"random-bytes", []byte(r.asciiStr(200, "\x00\x01\xff\xfeabc{}[]\":,0123456789\n")), true},
